@@ -325,6 +325,240 @@ def prim_search(ctx, shim, r, n, stream="cluster-prims"):
     return kinds
 
 
+# ------------------------------------------------------------------------------------------------
+# shape() level
+
+
+def parse_shape(reply):
+    """`ok n gid:cluster:flags:xa:ya:xo:yo …` -> list of 7-tuples, or None (reject / panic / abort)"""
+    if not reply.startswith("ok "):
+        return None
+    t = reply.split()
+    return [tuple(int(x) for x in g.split(":")) for g in t[2:]]
+
+
+def mutate_text(r, text, k):
+    t = list(text)
+    if k == 0: return text
+    if k == 1: return "".join(r.shuffle(t))
+    if k == 2: return "".join(t + t[: r.below(len(t) + 1)])              # repeated
+    if k == 3:
+        a = r.below(len(t)); return "".join(t[a:a + r.range(1, 8)]) or text   # sliced
+    if k == 4: return "".join(r.choice(t) for _ in range(r.range(1, 10)))   # resampled
+    if k == 5:   # text whose direction stays backward when shaped rtl: script-neutral and natively right-to-left characters
+        pool = t + list(" .-12") + [chr(x) for x in (0x5D0, 0x5D1, 0x5E9, 0x627, 0x628, 0x644, 0x645)]
+        return "".join(r.choice(pool) for _ in range(r.range(2, 8)))
+    if k == 6:   # neutral characters only (no script: the requested direction is kept as it is)
+        return "".join(r.choice(t + list(" .-")) if r.chance(1, 4) else r.choice(" .-,:") for _ in range(r.range(2, 6)))
+    return "".join(reversed(t))
+
+
+def input_clusters(r, n, kind):
+    """non-decreasing input numbering: 0..n-1, with gaps, with repeats, byte-offset style"""
+    if kind == 0: return list(range(n))
+    c, out = r.below(4), []
+    for _ in range(n):
+        out.append(c)
+        if kind == 1: c += r.range(1, 4)
+        elif kind == 2: c += r.below(2)
+        else: c += r.choice([0, 1, 1, 2, 3, 4])
+    return out
+
+
+KERN_OFF = ("kern", 0, 0, U32MAX)
+DIRS = [None, "l", "r", "t", "b"]
+FLAGS = [0, 0, 3, 8, 4, 0x10, 0x40, 0x43]
+
+
+def shape_requests(r, ncases, ntexts, full_grid):
+    """[(font registration line, [(request line, meta)])]; meta = (case name, input clusters, dir, level, kern_off)"""
+    cases = r.shuffle(corpus.load())[:ncases]
+    groups = []
+    for fid, reg, cs in corpus.font_groups(cases):
+        reqs = []
+        for c in cs:
+            for ti in range(ntexts):
+                text = mutate_text(r, c.text, 0 if ti == 0 else r.range(1, 7))[:48]
+                if not text:
+                    continue
+                cl = input_clusters(r, len(text), 0 if ti == 0 else r.below(4))
+                flags = c.flags if ti == 0 else r.choice(FLAGS)
+                grid = [(d, lv, ko) for d in DIRS for lv in (0, 1, 2) for ko in (False, True)]
+                if not full_grid:
+                    grid = r.sample(grid, 10) + [("r", 0, True), ("b", 1, True)]
+                for d, lv, ko in grid:
+                    ln = c.shape_line(fid, text=text, clusters=cl, dir=d or (c.dir if ti == 0 else None), level=lv,
+                                      flags=flags, feats=[KERN_OFF] if ko else [])
+                    reqs.append((ln, (c.name, cl, d or (c.dir if ti == 0 else None), lv, ko)))
+        groups.append((reg, reqs))
+    return groups
+
+
+def check_shape(meta, glyphs):
+    """C02 oracles on one shaping; returns a list of (kind, detail)"""
+    name, cl_in, d, lv, ko = meta
+    out = [g[1] for g in glyphs]
+    bad = []
+    if not set(out) <= set(cl_in):
+        bad.append(("subset", sorted(set(out) - set(cl_in))))
+    if lv <= 1 and out and min(cl_in) not in out:
+        bad.append(("minimum", min(cl_in)))
+    if lv <= 1:
+        if d in ("l", "t") and not asc(out): bad.append(("monotone", "not non-decreasing"))
+        elif d in ("r", "b") and not desc(out): bad.append(("monotone", "not non-increasing"))
+        elif d is None and not (asc(out) or desc(out)): bad.append(("monotone", "neither"))
+    return bad
+
+
+def shape_search(ctx, shim, r, ncases, ntexts, full_grid):
+    groups = shape_requests(r, ncases, ntexts, full_grid)
+    lines = [[reg] + [q for q, _ in reqs] for reg, reqs in groups]
+    outs = vlib.run_groups(shim, lines, timeout=1200)
+    total = nontriv = crashed = 0
+    dist = {"dir": {}, "level": {}, "kern_off": 0, "backward+kern_off": 0, "multi-glyph": 0}
+    found = {}
+    for (reg, reqs), o in zip(groups, outs):
+        for (q, meta), rep in zip(reqs, o[1:]):
+            total += 1
+            gl = parse_shape(rep)
+            if gl is None:
+                if rep not in ("reject", "bad-op"): crashed += 1   # bad-op: a corpus feature string the crate's parser refuses
+                continue
+            if len(gl) > 1: dist["multi-glyph"] += 1
+            if gl: nontriv += 1
+            dist["dir"][str(meta[2])] = dist["dir"].get(str(meta[2]), 0) + 1
+            dist["level"][meta[3]] = dist["level"].get(meta[3], 0) + 1
+            if meta[4]:
+                dist["kern_off"] += 1
+                if meta[2] in ("r", "b"): dist["backward+kern_off"] += 1
+            for kind, detail in check_shape(meta, gl):
+                key = (kind, "kern=0" if meta[4] else "kern", meta[2] in ("r", "b"))
+                found.setdefault(key, []).append((len(q), reg, q, meta, rep, detail))
+    for key, lst in sorted(found.items(), key=lambda kv: str(kv[0])):
+        lst.sort(key=lambda x: x[0])
+        _, reg, q, meta, rep, detail = lst[0]
+        ctx.violation(f"shape(): output clusters violate C02 ({key[0]}, {key[1]}, {'backward' if key[2] else 'forward/guessed'} direction; "
+                      f"{len(lst)} shapings, {len(set(x[1] for x in lst))} fonts): {detail}; input clusters {meta[1]}, "
+                      f"output clusters {[g[1] for g in parse_shape(rep)]}",
+                      {"stage": "search", "stream": "shape-clusters", "font_line": reg, "request": q, "case": meta[0],
+                       "input_clusters": meta[1], "dir": meta[2], "level": meta[3], "kern_off": meta[4], "kind": key[0],
+                       "observed": rep[:3000], "fonts": sorted(set(x[1].split()[2] for x in lst))[:40], "count": len(lst)})
+    ctx.note_search("shape-clusters", total, nontriv, crashed_or_aborted=crashed, distribution=dist,
+                    violations_by_kind={str(k): len(v) for k, v in found.items()},
+                    rule="corpus (font, text, options) of tests/shaping plus shuffled / repeated / sliced / resampled texts with "
+                         "non-decreasing input clusters (consecutive, gapped, repeated), x {guessed, ltr, rtl, ttb, btt} x levels 0/1/2 x "
+                         "kerning on / kern=0 x buffer flags; oracles: output cluster values ⊆ input values; the smallest input value is "
+                         "present (levels 0/1, non-empty output); non-decreasing for ltr/ttb, non-increasing for rtl/btt, either for a "
+                         "guessed direction (levels 0/1); non-trivial = at least one glyph came out")
+    return found
+
+
+# ------------------------------------------------------------------------------------------------
+# synthetic kern / kerx fonts (the corpus has no font with a `kerx` table)
+
+import struct
+
+
+def _pairs(fmt_u32):
+    prs = sorted([(1, 2, -60), (2, 3, -40), (3, 1, 30), (7, 1, -25), (8, 9, -70), (10, 11, -55), (1, 7, 15)])
+    n = len(prs)
+    es = n.bit_length() - 1
+    sr = (1 << es) * 6
+    hdr = struct.pack(">IIII" if fmt_u32 else ">HHHH", n, sr, es, n * 6 - sr)
+    return hdr + b"".join(struct.pack(">HHh", a, b, v) for a, b, v in prs)
+
+
+def mini_font(kind, nsub):
+    """head/hhea/maxp/hmtx/cmap + a `kern` (version 0) or `kerx` (version 2) table of `nsub` format-0 subtables.
+    glyphs: 1..6 = U+05D0.., 7 = space, 8/9 = '1' '2', 10/11 = 'a' 'b', 12 = '.'"""
+    ng = 13
+    cmap_map = [(0x20, 0x20, 7), (0x2E, 0x2E, 12), (0x31, 0x32, 8), (0x61, 0x62, 10), (0x5D0, 0x5D5, 1)]
+    sub = struct.pack(">HHIII", 12, 0, 16 + 12 * len(cmap_map), 0, len(cmap_map)) + b"".join(struct.pack(">III", *g) for g in cmap_map)
+    cmap = struct.pack(">HHHHI", 0, 1, 3, 10, 12) + sub
+    head = struct.pack(">IIIIHHQQhhhhHHhhh", 0x00010000, 0x00010000, 0, 0x5F0F3CF5, 0, 1000, 0, 0, 0, 0, 1000, 1000, 0, 8, 2, 0, 0)
+    hhea = struct.pack(">IhhhHhhhhhhhhhhhH", 0x00010000, 800, -200, 0, 700, 0, 0, 700, 1, 0, 0, 0, 0, 0, 0, 0, ng)
+    maxp = struct.pack(">IH", 0x00005000, ng)
+    hmtx = b"".join(struct.pack(">Hh", 500 + 10 * g, 0) for g in range(ng))
+    if kind == "kern":
+        body = _pairs(False)
+        kt = struct.pack(">HH", 0, nsub) + b"".join(struct.pack(">HHH", 0, 6 + len(body), 0x0001) + body for _ in range(nsub))
+    else:
+        body = _pairs(True)
+        kt = struct.pack(">HHI", 2, 0, nsub) + b"".join(struct.pack(">III", 12 + len(body), 0, 0) + body for _ in range(nsub))
+    tables = {b"cmap": cmap, b"head": head, b"hhea": hhea, b"hmtx": hmtx, b"maxp": maxp, kind.encode(): kt}
+    tags = sorted(tables)
+    off = 12 + 16 * len(tags)
+    dirs, data = b"", b""
+    for t in tags:
+        d = tables[t] + b"\0" * (-len(tables[t]) % 4)
+        dirs += t + struct.pack(">III", 0, off + len(data), len(tables[t]))
+        data += d
+    es = len(tags).bit_length() - 1
+    return struct.pack(">IHHHH", 0x00010000, len(tags), (1 << es) * 16, es, len(tags) * 16 - (1 << es) * 16) + dirs + data
+
+
+class _SynthCase(corpus.Case):
+    pass
+
+
+def synth_search(ctx, shim, r, ntexts):
+    pool = [chr(0x5D0 + i) for i in range(6)] * 2 + list(" 12ab.")
+    groups = []
+    for kind in ("kern", "kerx"):
+        for nsub in (1, 2, 3):
+            fid = f"S{kind}{nsub}"
+            reg = f"font {fid} {mini_font(kind, nsub).hex()}"
+            c = _SynthCase()
+            c.name = f"synthetic::{kind}x{nsub}"; c.font = fid; c.index = 0; c.text = ""; c.dir = None; c.script = None
+            c.lang = None; c.flags = 0; c.level = 0; c.feats = []; c.pre = ""; c.post = ""; c.extra = []; c.opts = ""
+            reqs = []
+            for _ in range(ntexts):
+                text = "".join(r.choice(pool) for _ in range(r.range(2, 6)))
+                cl = input_clusters(r, len(text), r.below(4))
+                for d in DIRS:
+                    for lv in (0, 1, 2):
+                        for ko in (False, True):
+                            ln = c.shape_line(fid, text=text, clusters=cl, dir=d, level=lv, feats=[KERN_OFF] if ko else [])
+                            reqs.append((ln, (c.name, cl, d, lv, ko)))
+            groups.append((reg, reqs))
+    outs = vlib.run_groups(shim, [[reg] + [q for q, _ in reqs] for reg, reqs in groups], timeout=600)
+    total = nontriv = kerned = crashed = 0
+    found = {}
+    for (reg, reqs), o in zip(groups, outs):
+        if o[0] != "ok":
+            ctx.violation(f"synthetic {reg.split()[1]} font was not accepted by the crate: {o[0]}",
+                          {"stage": "search", "stream": "shape-synth-kern", "font_line": reg[:200]}, found_input=False)
+            continue
+        adv = {}
+        for (q, meta), rep in zip(reqs, o[1:]):
+            total += 1
+            gl = parse_shape(rep)
+            if gl is None:
+                crashed += 1; continue
+            if gl: nontriv += 1
+            key = (tuple(meta[1]), q.split()[10], meta[2], meta[3])
+            a = sorted((g[1], g[0], g[3], g[4]) for g in gl)
+            if key in adv and adv[key] != a: kerned += 1
+            adv[key] = a
+            for kind, detail in check_shape(meta, gl):
+                found.setdefault((kind, meta[0], "kern=0" if meta[4] else "kern"), []).append((len(q), reg, q, meta, rep, detail))
+    for key, lst in sorted(found.items()):
+        lst.sort(key=lambda x: x[0])
+        _, reg, q, meta, rep, detail = lst[0]
+        ctx.violation(f"shape() on a synthetic font ({key[1]}, {key[2]}): output clusters violate C02 ({key[0]}; {len(lst)} shapings): "
+                      f"{detail}; direction {meta[2]}, input clusters {meta[1]}, output clusters {[g[1] for g in parse_shape(rep)]}",
+                      {"stage": "search", "stream": "shape-clusters", "font_line": reg, "request": q, "case": meta[0],
+                       "input_clusters": meta[1], "dir": meta[2], "level": meta[3], "kern_off": meta[4], "kind": key[0],
+                       "observed": rep[:3000], "count": len(lst)})
+    ctx.note_search("shape-synth-kern", total, nontriv, crashed_or_aborted=crashed, kerning_changed_advances=kerned,
+                    violations_by_kind={str(k): len(v) for k, v in found.items()},
+                    rule="six synthetic cmap+hmtx fonts with 1/2/3 format-0 subtables in a `kern` (version 0) resp. `kerx` table; texts "
+                         "over Hebrew letters / digits / space / latin (so that the buffer direction stays backward for rtl), x 5 "
+                         "directions x 3 levels x kerning on / kern=0; same oracles as shape-clusters; kerning_changed_advances counts "
+                         "request pairs whose advances differ between kerning on and off (the table is live)")
+    return found
+
+
 def run(ctx):
     ctx.assumptions += [
         "theorems are about the Lean model of the buffer primitives (Buf.lean) and of form_clusters / ensure_native_direction / "
@@ -338,6 +572,8 @@ def run(ctx):
     shim = vlib.build_harness()
     ctx.correspond("cluster-prims", lines=prim_lines(ctx.rng("prims"), ctx.budget(20000, 300000)), classify=classify, canon=canon)
     prim_search(ctx, shim, ctx.rng("prim-search"), ctx.budget(30000, 400000))
+    shape_search(ctx, shim, ctx.rng("shape"), ctx.budget(300, 2128), ctx.budget(3, 6), not ctx.quick)
+    synth_search(ctx, shim, ctx.rng("synth"), ctx.budget(40, 400))
 
 
 def replay(ctx, rp):
@@ -351,4 +587,13 @@ def replay(ctx, rp):
         d = check_trace(rp["request"], a)
         print("deviations:", d)
         return 1 if (d or canon(a) != b) else 0
+    if rp.get("stream") == "shape-clusters":
+        o = vlib.run_groups(shim, [[rp["font_line"], rp["request"]]], nproc=1)[0]
+        print("font   :", rp["font_line"]); print("request:", rp["request"]); print("reply  :", o[1][:3000])
+        gl = parse_shape(o[1])
+        meta = (rp.get("case"), rp["input_clusters"], rp["dir"], rp["level"], rp["kern_off"])
+        bad = check_shape(meta, gl) if gl is not None else [("crash", o[1][:200])]
+        print("input clusters :", rp["input_clusters"]); print("output clusters:", [g[1] for g in gl or []])
+        print("deviations:", bad)
+        return 1 if bad else 0
     print(rp); return 1
